@@ -247,3 +247,64 @@ Example C14_nonvacuous_zerocopy :
   zc_send (ex_buf [1]%N 0) [ZC (ZOk 1) true; ZC (ZOk 0) true] = Some (Panic P_OTHER).
 Proof. vm_compute. repeat split. Qed.
 Print Assumptions C14_nonvacuous_zerocopy.
+
+(* ---------------------------------------------------------------------- *)
+(* Readiness (polling driver).  A send that found the send buffer full is
+   blocked; once the peer has READ kd >= 1 bytes — and has sent NOTHING: its
+   direction is empty and open — the poller reports the descriptor writable
+   and the retried call completes with 1 <= n <= min kd (length data) bytes
+   appended behind what is still queued. *)
+Theorem C14_blocked_send_resumes_on_writable : forall C q data k_os kd,
+  length q = C -> data <> [] ->
+  send_submit send_interest C q data k_os = (OpBlocked send_interest, q) /\
+  (1 <= kd -> kd <= C ->
+   forall k2, exists n,
+     send_retry send_interest C (skipn kd q) [] false data k2
+       = (OpDone n, skipn kd q ++ firstn n data) /\
+     1 <= n /\ n <= Nat.min kd (length data)).
+Proof. exact blocked_send_resumes. Qed.
+Print Assumptions C14_blocked_send_resumes_on_writable.
+
+(* symmetric: a receive blocked on an empty open socket resumes when the peer
+   has written, whatever the state of the other direction *)
+Theorem C14_blocked_recv_resumes_on_readable : forall C q_out bs cap k_os,
+  1 <= cap -> bs <> [] ->
+  recv_submit recv_interest [] false cap k_os = (OpBlocked recv_interest, [], []) /\
+  forall k2, exists n,
+    recv_retry recv_interest C q_out bs false cap k2 = (OpDone n, firstn n bs, skipn n bs) /\
+    1 <= n /\ n <= Nat.min (length bs) cap.
+Proof. exact blocked_recv_resumes. Qed.
+Print Assumptions C14_blocked_recv_resumes_on_readable.
+
+(* the whole transfer: a writer pushing q ++ rem through a send buffer of
+   capacity C while the peer only reads (every read >= 1 byte, enough reads)
+   delivers everything, in order — no byte from the peer is needed *)
+Theorem C14_backpressure_delivers_all : forall C q rem ks,
+  1 <= C -> Forall (fun k => 1 <= k) ks ->
+  length q <= C -> (rem <> [] -> q <> []) ->
+  length q + length rem <= length ks ->
+  bp_run send_interest C q rem ks = (q ++ rem, [], []).
+Proof. exact backpressure_delivers_all. Qed.
+Print Assumptions C14_backpressure_delivers_all.
+
+(* the fault class this guards against: registering the send for READABLE
+   leaves the writer's remaining bytes undelivered for every reading schedule *)
+Theorem C14_wrong_interest_never_delivers : forall C ks q rem,
+  rem <> [] -> length q = C ->
+  exists g qf, bp_run IReadable C q rem ks = (g, qf, rem).
+Proof. exact wrong_interest_never_delivers. Qed.
+Print Assumptions C14_wrong_interest_never_delivers.
+
+(* bulk transcripts (several MiB) are replayed on byte COUNTS: a sound
+   abstraction of the reference queue *)
+Theorem C14_count_abstraction : forall s l s' o,
+  ref_step s l = Some (s', o) -> cstep (cabs s) (clabel_of l) = Some (cabs s').
+Proof. exact count_abstraction. Qed.
+Print Assumptions C14_count_abstraction.
+
+Example C14_nonvacuous_backpressure :
+  (* buffer of 3, 8 bytes to send, the peer reads 2 bytes at a time *)
+  bp_run send_interest 3 [1;2;3]%N [4;5;6;7;8]%N [2;2;2;2;2;2;2;2]%nat = ([1;2;3;4;5;6;7;8]%N, [], []) /\
+  bp_run IReadable 3 [1;2;3]%N [4;5;6;7;8]%N [2;2;2;2;2;2;2;2]%nat = ([1;2;3]%N, [], [4;5;6;7;8]%N).
+Proof. vm_compute. split; reflexivity. Qed.
+Print Assumptions C14_nonvacuous_backpressure.
